@@ -1,0 +1,28 @@
+//go:build verif
+
+// Thin exports for the verification harness (/verif/harness/cmd/db, C16). No logic.
+package server
+
+import (
+	"log/slog"
+
+	"github.com/oxia-db/oxia/proto"
+)
+
+// a ShardsDirector that knows one leader (publicRpcServer.GetSequenceUpdates only calls GetLeader)
+type verifOneLeader struct {
+	ShardsDirector
+	lc LeaderController
+}
+
+func (d verifOneLeader) GetLeader(int64) (LeaderController, error) { return d.lc, nil }
+
+// VerifPublicGetSequenceUpdates runs publicRpcServer.GetSequenceUpdates (the streaming loop of the public RPC) for the
+// given leader on the given stream.
+func VerifPublicGetSequenceUpdates(lc LeaderController, req *proto.GetSequenceUpdatesRequest, stream proto.OxiaClient_GetSequenceUpdatesServer) error {
+	s := &publicRpcServer{
+		shardsDirector: verifOneLeader{lc: lc},
+		log:            slog.With(slog.String("component", "public-rpc-server")),
+	}
+	return s.GetSequenceUpdates(req, stream)
+}
